@@ -17,7 +17,7 @@ Hypotheses used below (all decidable on a concrete history, see the examples at 
 * `(run ops).evicted = []` — the orphan pool never overflowed its bound of 100 (an evicted orphan was
                            delivered but is forgotten by design; wall-clock expiry is not modelled).
 -/
-import BV.C02.Lemmas12
+import BV.C02.Lemmas13
 import BV.C02.Witness
 import BV.Generated.C02
 namespace BV.C02
@@ -182,6 +182,28 @@ theorem best_header_rule (s : State) (b : BlockAbs) (n : Node) (hl : lookup s.id
     ((step s (.header b)).1.bestHdr = b.hash ∧
       (b.parent = s.bestHdr ∨ s.wsum s.bestHdr < (step s (.header b)).1.wsum b.hash)) :=
   processHeader_hdr_rule s b n hl
+
+/-- For every history the best-header tip is an indexed node (the index only grows), so the
+first-seen rule of the header view holds along every run without further hypotheses. -/
+theorem best_header_rule_run (ops : List Op) (b : BlockAbs) :
+    let s := run ops
+    (step s (.header b)).1.bestHdr = s.bestHdr ∨
+    ((step s (.header b)).1.bestHdr = b.hash ∧
+      (b.parent = s.bestHdr ∨ s.wsum s.bestHdr < (step s (.header b)).1.wsum b.hash)) := by
+  intro s
+  obtain ⟨n, hn⟩ := hdrIdx_run ops
+  exact processHeader_hdr_rule s b n hn
+
+/-- The index only grows: whatever op follows, every indexed node stays indexed, unchanged. -/
+theorem index_only_grows (s : State) (o : Op) (h : Hash) (n : Node) (hl : lookup s.idx h = some n) :
+    lookup (step s o).1.idx h = some n :=
+  lm_step s o h n hl
+
+/-- A delivered block whose own index node is known invalid (e.g. a header-only node invalidated by
+hand) is refused by `maybeAcceptBlock` without any effect (the repair of F-C02-e). For every state. -/
+theorem known_invalid_block_never_accepted (s : State) (b : BlockAbs)
+    (hk : (s.status b.hash).knownInvalid = true) : maybeAccept s b = (s, none) :=
+  maybeAccept_known_invalid s b hk
 
 /-! ### 4. order independence -/
 
